@@ -23,4 +23,22 @@ impl<'a, T> AsRefSlice<T> for &'a Vec<T> {
     open spec fn slice_view(&self) -> Seq<T> { self@ }
     fn as_ref(&self) -> (r: &[T]) { self.as_slice() }
 }
+
+// ASSUME(A-STD1): `AsRef<StripedSequence<A, C>>` / `AsRef<DenseMatrix<T, K>>` are pure views (identity or field access)
+pub trait AsRefSeq<A: Alphabet, C: PositiveLength>: Sized {
+    spec fn seq_view(&self) -> StripedSequence<A, C>;
+    fn as_ref(&self) -> (r: &StripedSequence<A, C>) ensures *r == self.seq_view();
+}
+impl<'a, A: Alphabet, C: PositiveLength> AsRefSeq<A, C> for &'a StripedSequence<A, C> {
+    open spec fn seq_view(&self) -> StripedSequence<A, C> { **self }
+    fn as_ref(&self) -> (r: &StripedSequence<A, C>) { *self }
+}
+pub trait AsRefMat<T: MatrixElement, K: Unsigned>: Sized {
+    spec fn mat_view(&self) -> DenseMatrix<T, K>;
+    fn as_ref(&self) -> (r: &DenseMatrix<T, K>) ensures *r == self.mat_view();
+}
+impl<'a, T: MatrixElement, K: Unsigned> AsRefMat<T, K> for &'a DenseMatrix<T, K> {
+    open spec fn mat_view(&self) -> DenseMatrix<T, K> { **self }
+    fn as_ref(&self) -> (r: &DenseMatrix<T, K>) { *self }
+}
 } // verus!
